@@ -129,14 +129,14 @@ func under(t types.Type) types.Type { return t.Underlying() }
 func (st *State) sizeOf(t types.Type) int {
 	switch u := t.Underlying().(type) {
 	case *types.Struct:
-		if n, ok := st.prog.sizeMemo[t]; ok {
+		if n, ok := st.sizeMemo[t]; ok {
 			return n
 		}
 		n := 0
 		for i := 0; i < u.NumFields(); i++ {
 			n += st.sizeOf(u.Field(i).Type())
 		}
-		st.prog.sizeMemo[t] = n
+		st.sizeMemo[t] = n
 		return n
 	case *types.Array:
 		return int(u.Len()) * st.sizeOf(u.Elem())
